@@ -14,6 +14,10 @@ NONMUT_CALLS = {'len', 'set', 'list', 'sorted', 'reversed', 'enumerate', 'isinst
                 'dict', 'min', 'max', 'hash', 'range', 'cast', 'frozenset', 'str', 'bytes'}
 
 
+class _NoMerge(Exception):
+    pass
+
+
 def loops_in_order(fnode):
     out = []
 
@@ -61,10 +65,151 @@ class StmtMixin:
             live = nxt
             if not live:
                 break
+            if len(live) > 1 and self.ctx.merge_paths and self.may_merge(frame):
+                live = self.merge_states(live)
             if len(live) > self.ctx.max_paths:
                 raise VCError('path explosion (%d live paths) in %s line %s' % (len(live), frame.label, s.lineno))
         outs.extend(Outcome('normal', s_) for s_ in live)
         return outs
+
+    # ---- state merging (join after each statement) -----------------------------------------------
+    def may_merge(self, frame):
+        fr = frame
+        while getattr(fr, 'contract', None) is None and getattr(fr, 'caller', None) is not None:
+            fr = fr.caller
+        mode = fr.contract.merge if getattr(fr, 'contract', None) is not None else 'all'
+        if self.ctx.no_merge_in_loops and mode == 'all':
+            mode = 'outside-loops'
+        if mode == 'none':
+            return False
+        if mode == 'outside-loops' and getattr(fr, 'in_loop', 0):
+            return False
+        return True
+
+    def merge_states(self, states):
+        """Join path states that continue at the same program point into one state with a path selector.
+        Returns [merged] or the input list when some value cannot be merged."""
+        if len(states) < 2:
+            return states
+        try:
+            return [self._merge(states)]
+        except _NoMerge:
+            return states
+
+    def _merge(self, states):
+        s0 = states[0]
+        # common path-condition prefix
+        p0 = 0
+        m = min(len(s.pc) for s in states)
+        while p0 < m and all(s.pc[p0].eq(s0.pc[p0]) for s in states[1:]):
+            p0 += 1
+        sel = fresh('path', z3.IntSort())
+        out = s0.fork()
+        out.pc = list(s0.pc[:p0])
+        extras = [list(s.pc[p0:]) for s in states]
+
+        def ite(terms):
+            # a named merged value, equal to the path's value under the path selector (equalities between
+            # constants keep E-matching effective; nested ite terms do not)
+            m = fresh('mrg', terms[0].sort())
+            for i, t in enumerate(terms):
+                extras[i].append(m == t)
+            return m
+        # heap
+        fids = set()
+        for s in states:
+            fids |= set(s.heap)
+        for fid in fids:
+            ts = []
+            for s in states:
+                t = s.heap.get(fid)
+                if t is None:
+                    t = self.ctx.heap0.get(fid) if fid != '$alloc' else self.ctx.alive0
+                    if t is None:
+                        raise _NoMerge()
+                ts.append(t)
+            out.heap[fid] = ts[0] if all(t.eq(ts[0]) for t in ts[1:]) else ite(ts)
+        # cells
+        cids = set()
+        for s in states:
+            cids |= set(s.cells)
+        for cid in cids:
+            ts = [s.cells.get(cid) for s in states]
+            present = [t for t in ts if t is not None]
+            if len(set(t.sort().name() for t in present)) > 1:
+                raise _NoMerge()
+            if len(present) < len(ts):
+                # the cell exists only on some paths (a container created inside a branch): keep its value
+                out.cells[cid] = present[0] if all(t.eq(present[0]) for t in present[1:]) else \
+                    ite([t if t is not None else present[0] for t in ts])
+            else:
+                out.cells[cid] = ts[0] if all(t.eq(ts[0]) for t in ts[1:]) else ite(ts)
+        # locals
+        names = set()
+        for s in states:
+            names |= set(s.locals)
+        out.locals = {}
+        for n in names:
+            vs = [s.locals.get(n) for s in states]
+            if any(v is None for v in vs):
+                # defined on some paths only: drop (a use would be an UnboundLocalError on the other path)
+                if n.startswith('__'):
+                    continue
+                continue
+            out.locals[n] = self._merge_vals(vs, ite, out)
+        out.pc.append(z3.Or(*[z3.And(sel == i, *ex) for i, ex in enumerate(extras)]))
+        return out
+
+    def _merge_vals(self, vs, ite, out):
+        v0 = vs[0]
+        if all(v is v0 for v in vs[1:]):
+            return v0
+        if all(isinstance(v, PyConst) for v in vs) and all(v.v == v0.v and type(v.v) is type(v0.v) for v in vs):
+            return v0
+        if all(isinstance(v, NoneV) for v in vs):
+            return v0
+        if all(isinstance(v, (RefV, NoneV)) for v in vs):
+            rv = [v for v in vs if isinstance(v, RefV)]
+            t = rv[0].t
+            for v in rv[1:]:
+                if v.t != t:
+                    t = ANYREF if v.t.cls not in self.ctx.shapes.mro(t.cls) and t.cls not in self.ctx.shapes.mro(v.t.cls) \
+                        else (t if t.cls in self.ctx.shapes.mro(v.t.cls) else v.t)
+            terms = [v.term if isinstance(v, RefV) else NONE for v in vs]
+            if all(x.eq(terms[0]) for x in terms[1:]):
+                return RefV(terms[0], t, any(isinstance(v, NoneV) or v.nullable for v in vs))
+            return RefV(ite(terms), t, any(isinstance(v, NoneV) or v.nullable for v in vs))
+        if all(isinstance(v, Cont) for v in vs):
+            k0 = v0.loc.key()
+            if all(v.loc.key() == k0 and v.t == v0.t for v in vs[1:]):
+                return v0
+            if all(v.t == v0.t for v in vs):
+                terms = [v.loc.read(out) if not isinstance(v.loc, CellLoc) else out.cells[v.loc.cid] for v in vs]
+                # different containers on different paths: a merged read-only VALUE would lose aliasing
+                raise _NoMerge()
+            raise _NoMerge()
+        if all(isinstance(v, (Sc, PyConst)) for v in vs):
+            kinds = set(v.t.kind for v in vs)
+            if len(kinds) == 1:
+                t = v0.t
+            elif kinds <= {'int', 'real', 'bool'}:
+                t = REAL if 'real' in kinds else INT
+            elif kinds <= {'optint', 'int'}:
+                t = OPTINT
+            else:
+                raise _NoMerge()
+            terms = [self.term(v, out, t) for v in vs]
+            if all(x.eq(terms[0]) for x in terms[1:]):
+                return Sc(terms[0], t)
+            return Sc(ite(terms), t)
+        if all(isinstance(v, TupleV) for v in vs) and len(set(len(v.items) for v in vs)) == 1:
+            return TupleV([self._merge_vals([v.items[i] for v in vs], ite, out) for i in range(len(v0.items))])
+        if all(isinstance(v, (FuncV, ClassV)) for v in vs):
+            raise _NoMerge()
+        if any(isinstance(v, NoneV) for v in vs) and all(isinstance(v, (NoneV, Sc)) and (isinstance(v, NoneV) or v.t.kind in ('int', 'optint')) for v in vs):
+            terms = [self.term(v, out, OPTINT) for v in vs]
+            return Sc(ite(terms), OPTINT)
+        raise _NoMerge()
 
     def exec_stmt(self, node, st, frame):
         m = getattr(self, 'st_' + type(node).__name__, None)
@@ -401,7 +546,10 @@ class StmtMixin:
         if not hasattr(frame, 'loop_index'):
             frame.loop_index = loops_in_order(frame.finfo.node)
         idx = frame.loop_index.get(id(node))
-        return frame.contract.loops.get(idx), idx
+        loops = getattr(frame, 'view_loops', None)
+        if loops is None:
+            loops = frame.contract.loops
+        return loops.get(idx), idx
 
     def st_For(self, node, st, frame):
         for st1, itv in self.ev(node.iter, st, frame):
@@ -512,7 +660,12 @@ class StmtMixin:
             item = self.wrap_elem(z3.Select(self.l_arr(lst, s_body), k), lst.t.args[0], s_body)
         dec0 = self.eval_decreases(spec, s_body, frame)
         for s in self.assign(node.target, item, s_body, frame, node):
-            for o in self.exec_block(node.body, s, frame):
+            frame.in_loop = getattr(frame, 'in_loop', 0) + 1
+            try:
+                body_outs = self.exec_block(node.body, s, frame)
+            finally:
+                frame.in_loop -= 1
+            for o in body_outs:
                 if o.kind in ('normal', 'continue'):
                     o.st.locals['_k'] = o.st.locals['_k%d' % idx] = Sc(k + 1, INT)
                     o.st.locals['_it'] = o.st.locals['_it%d' % idx] = lst
@@ -565,7 +718,12 @@ class StmtMixin:
             s_body = st1.fork()
             s_body.assume(t)
             dec0 = self.eval_decreases(spec, s_body, frame)
-            for o in self.exec_block(node.body, s_body, frame):
+            frame.in_loop = getattr(frame, 'in_loop', 0) + 1
+            try:
+                body_outs = self.exec_block(node.body, s_body, frame)
+            finally:
+                frame.in_loop -= 1
+            for o in body_outs:
                 if o.kind in ('normal', 'continue'):
                     self.check_invs(spec, o.st, frame, node, label + ':pres')
                     if dec0 is not None:
@@ -588,14 +746,16 @@ class StmtMixin:
         s = st.fork()
         s.spec = True
         s.pc = st.pc
+        # at the end of an iteration the path ends: proved invariants need not be assumed for the next ones
+        keep = label.endswith(':init')
         for i, inv in enumerate(spec.inv):
             g = self.spec_bool(inv, s, frame)
-            self.oblige(st, g, '%s#%d' % (label, i), frame, node, inv)
+            self.oblige(st, g, '%s#%d' % (label, i), frame, node, inv, assume=keep)
 
     def assume_invs(self, spec, st, frame):
         s = st.fork()
         s.spec = True
-        for inv in spec.inv:
+        for inv in list(spec.inv) + list(spec.assume_only):
             st.assume(self.spec_bool(inv, s, frame))
 
     def havoc_loop(self, node, spec, st, frame):
@@ -616,9 +776,12 @@ class StmtMixin:
                             and isinstance(st.locals.get(f.value.id), Cont):
                         pass
                     else:
-                        for a in n.args:
-                            if isinstance(a, ast.Name):
-                                mutated.add(a.id)
+                        # arguments of calls: havoc only where the callee may modify them - a callee with a
+                        # contract lists such parameters in `modifies`; unresolved/stubbed callees on other
+                        # objects havoc what they change themselves; inlined callees are treated conservatively
+                        mods = self.callee_modified_args(n, frame)
+                        for a in mods:
+                            mutated.add(a)
             elif isinstance(n, ast.Subscript) and isinstance(n.ctx, (ast.Store, ast.Del)) and isinstance(n.value, ast.Name):
                 mutated.add(n.value.id)
             elif isinstance(n, ast.AugAssign) and isinstance(n.target, ast.Name):
@@ -646,11 +809,46 @@ class StmtMixin:
             v = st.locals.get(name)
             if isinstance(v, Cont) and not v.frozen and isinstance(v.loc, CellLoc):
                 v.loc.write(st, fresh('lv_' + name, v.t.sort()))
+        # objects may be allocated inside the loop: the allocation set only grows
+        allocates = any(isinstance(n, ast.Call) and isinstance(n.func, ast.Name) and n.func.id[:1].isupper()
+                        for n in ast.walk(node))
+        if allocates:
+            a0 = st.alloc_arr()
+            a1 = fresh('alloc', a0.sort())
+            x = z3.Const('x!al', Ref)
+            st.assume(z3.ForAll([x], z3.Implies(z3.Select(a0, x), z3.Select(a1, x)), patterns=[z3.Select(a0, x)]))
+            st.heap['$alloc'] = a1
         mods = spec.modifies if spec.modifies is not None else (frame.contract.modifies if frame.contract else [])
         pre = st.fork()
         pre.spec = True
         for m in mods:
             self.havoc_loc(m, pre, st, frame)
+
+    def callee_modified_args(self, call, frame):
+        f = call.func
+        callee = None
+        if isinstance(f, ast.Attribute) and isinstance(f.value, ast.Name) and f.value.id == 'self' and frame.cls:
+            callee = self.ctx.repo.find_method(frame.cls, f.attr)
+            offset = 1
+        elif isinstance(f, ast.Name):
+            m = self.ctx.repo.modules.get(frame.module)
+            if m and f.id in m.funcs:
+                callee = m.funcs[f.id]
+            offset = 0
+        elif isinstance(f, ast.Attribute):
+            return []        # method on another object: contract/stub havocs explicitly
+        names = [a.id for a in call.args if isinstance(a, ast.Name)]
+        if callee is None:
+            return names
+        c = self.ctx.contracts.get((callee.module, callee.qualname))
+        if c is None:
+            return names
+        params = [x.arg for x in callee.node.args.posonlyargs + callee.node.args.args][offset:]
+        out = []
+        for p_, a in zip(params, call.args):
+            if isinstance(a, ast.Name) and p_ in c.modifies:
+                out.append(a.id)
+        return out
 
     # ---- await (A5) ------------------------------------------------------------------------
     def do_await(self, v, st, frame, node):
